@@ -578,3 +578,46 @@ Proof.
   unfold pipeline_all. rewrite BC. f_equal. apply Forall2_map_eq.
   eapply Forall2_impl; [|exact F1]. intros q kq H. simpl in H. unfold world_prob. now rewrite H, E2.
 Qed.
+
+(* the same with the independence of the extra identifiers given semantically (for source formulas that
+   contain the extra atoms as unreferenced nodes, see Cone.v) *)
+Theorem pipeline_counts_all_dep : forall tc use_memo P qs e M D kqs kes,
+    stratified (wp_graph P) -> (forall a, is_model (wp_graph P) a (M a)) ->
+    (forall b, In b (wp_groups P) -> forall a a', (forall y, y <> snd b -> a y = a' y) ->
+               forall c, In (Some c) (qs ++ e) -> lit_val (M a) c = lit_val (M a') c) ->
+    break_cycles_m tc use_memo (wp_graph P) (ai_of P) qs e = Some (D, kqs, kes) ->
+    dag_ok P D ->
+    Forall2 (fun q kq => pipe_wmc P D (kq :: kes) = world_sum P (fun a => b2q (holds (M a) (q :: e)))) qs kqs /\
+    pipe_wmc P D kes = world_sum P (fun a => b2q (holds (M a) e)).
+Proof.
+  intros tc um P qs e M D kqs kes ST HM HD BC OK.
+  assert (C9 : forall a, topo D /\
+              Forall2 (fun n k => key_val (vget (dag_val a D)) k = key_val (M a) n) qs kqs /\
+              Forall2 (fun n k => key_val (vget (dag_val a D)) k = key_val (M a) n) e kes).
+  { intros a. apply (break_cycles_correct tc um (wp_graph P) (ai_of P) qs e D kqs kes a (M a)); auto. }
+  assert (T : topo D) by (destruct (C9 a0); auto).
+  assert (E2 : forall a, holds (vget (dag_val a D)) kes = holds (M a) e).
+  { intros a. destruct (C9 a) as [_ [_ F2]]. apply Forall2_holds; auto. }
+  assert (DEPM : forall ns b, In b (wp_groups P) -> (forall n, In n ns -> In n (qs ++ e)) ->
+                              dep (fun y => y <> snd b) (fun a => b2q (holds (M a) ns))).
+  { intros ns b Hb SUB a a' H. f_equal. unfold holds. apply forallb_ext_in_c. intros n Hn.
+    destruct n as [c|]; simpl; auto. apply (HD b Hb a a' H c). apply SUB; auto. }
+  split.
+  - assert (FA : Forall2 (fun n k => In n qs /\ forall a, key_val (vget (dag_val a D)) k = key_val (M a) n) qs kqs).
+    { assert (FA0 : Forall2 (fun n k => forall a, key_val (vget (dag_val a D)) k = key_val (M a) n) qs kqs).
+      { apply (Forall2_forall _ _ _ (fun a n k => key_val (vget (dag_val a D)) k = key_val (M a) n) a0).
+        intros a. destruct (C9 a) as [_ [F1 _]]. exact F1. }
+      clear - FA0. induction FA0; constructor; auto.
+      - split; auto. left; auto.
+      - eapply Forall2_impl; [|exact IHFA0]. intros n k [Hn Hk]. split; auto. right; auto. }
+    eapply Forall2_impl; [|exact FA]. intros q kq [Hin Hq]. simpl in Hq.
+    assert (E1 : forall a, holds (vget (dag_val a D)) (kq :: kes) = holds (M a) (q :: e)).
+    { intros a. unfold holds in *. simpl. rewrite E2. f_equal. apply Hq. }
+    rewrite pipe_wmc_world; auto.
+    + unfold world_sum. apply bsum_ext. intros a. now rewrite E1.
+    + intros b Hb a a' H. rewrite !E1. apply (DEPM (q :: e) b Hb); auto.
+      intros n [<-|Hn]; apply in_or_app; auto.
+  - rewrite pipe_wmc_world; auto.
+    + unfold world_sum. apply bsum_ext. intros a. now rewrite E2.
+    + intros b Hb a a' H. rewrite !E2. apply (DEPM e b Hb); auto. intros n Hn. apply in_or_app; auto.
+Qed.
